@@ -61,9 +61,13 @@ def check_C02(c):
     cases = c.tlc("MC_slice", "slice-full", k1, inv)
     c.replay("slice-full", cases, dtypes="sizes", pals="ident", rotate=3 if q else 0)
     # (b) higher ranks: one axis over the complete space, the others over a palette; nesting
-    k2 = dict(base, MinRank=3, MaxRank=3 if q else 4, MaxDim=2, MaxDimHi=2, FullRank=0, Depth=1, WithT=not q)
+    k2 = dict(base, MinRank=3, MaxRank=3 if q else 4, MaxDim=2, MaxDimHi=2, FullRank=0, Depth=1, WithT=False)
     cases = c.tlc("MC_slice", "slice-hi", k2, inv)
-    c.replay("slice-hi", cases, dtypes="sizes", pals="ident", rotate=2 if q else 0)
+    c.replay("slice-hi", cases, dtypes="sizes", pals="ident", rotate=2)
+    if not q:   # lazily transposed rank-3 sources (rank 4 transposed sources would be millions of behaviours)
+        k2t = dict(base, MinRank=3, MaxRank=3, MaxDim=2, MaxDimHi=2, FullRank=0, Depth=1, WithT=True, Ctors={S("C")})
+        cases = c.tlc("MC_slice", "slice-hi-t", k2t, inv)
+        c.replay("slice-hi-t", cases, dtypes="sizes", pals="ident", rotate=2)
     if not q:   # rank 3 with dims up to 3 (rank 4 stays at dims <= 2)
         k2b = dict(base, MinRank=3, MaxRank=3, MaxDim=3, MaxDimHi=3, FullRank=0, Depth=1, WithT=False, Ctors={S("C")})
         cases = c.tlc("MC_slice", "slice-r3", k2b, inv)
@@ -73,9 +77,13 @@ def check_C02(c):
     cases = c.tlc("MC_slice", "slice-wide", kw, inv)
     c.replay("slice-wide", cases, dtypes="float64,int8", pals="ident", rotate=1 if q else 0)
     # (c) nested slicing (slice of slice of transpose) to depth 3 over the palette
-    k3 = dict(base, MinRank=1, MaxRank=2 if q else 3, MaxDim=3, MaxDimHi=3, FullRank=0, Depth=3, WithT=True, MaxStep=1)
+    k3 = dict(base, MinRank=1, MaxRank=2, MaxDim=3 if q else 4, MaxDimHi=3 if q else 4, FullRank=0, Depth=3, WithT=True, MaxStep=1)
     cases = c.tlc("MC_slice", "slice-nested", k3, inv)
-    c.replay("slice-nested", cases, dtypes="sizes", pals="ident", rotate=2 if q else 0)
+    c.replay("slice-nested", cases, dtypes="sizes", pals="ident", rotate=2)
+    if not q:   # rank 3 (dims <= 2) nested to depth 2
+        k3b = dict(base, MinRank=3, MaxRank=3, MaxDim=2, MaxDimHi=2, FullRank=0, Depth=2, WithT=True, MaxStep=1)
+        cases = c.tlc("MC_slice", "slice-nested-r3", k3b, inv)
+        c.replay("slice-nested-r3", cases, dtypes="sizes", pals="ident", rotate=2)
     c.rep.rule = ("TLC enumerates sources {row-major, column-major, lazily transposed, slice} x shapes x the complete per-axis "
                   "argument space (nil, index -1..d, start -1..d, end 0..d+1, step 0..MaxStep, fewer slices than axes) and nested "
                   "slicing to depth 3; each emitted behaviour is executed on the real library and every live tensor plus every "
